@@ -78,6 +78,23 @@ def retry_cases(bases, base_obs):
     return out
 
 
+def corpus_cases():
+    """one fixed scenario per recorded finding (their failures carry the finding's tag)"""
+    out = []
+    # a modification creates two PDRs; both per-PDR MODIFY batches are answered ALREADY_EXISTS only (tolerated), so the
+    # modification is accepted and the PDRs are stored - with ctrID 0, sendUpdate allocates no counter
+    h = G.Hist(None, "K-mod-created-pdr")
+    h.establish("A", nq=1)
+    st = h.modify("A", "add_pair")
+    st["faults"] = [dict(G.FAULT_KINDS["p4ae"], at=4), dict(G.FAULT_KINDS["p4ae"], at=5)]
+    h.delete("A")
+    h.tail()
+    c = h.case()
+    c["cls"] = "corpus"
+    out.append(c)
+    return out
+
+
 def random_cases(rng, n):
     out = []
     for t in range(n):
@@ -263,7 +280,7 @@ def run(tier, seed, replay=None):
         "conservation (no leak) is not part of C15 (that is C05): a rejected establishment that strands identifiers is reported in the evidence, not as a failure",
         "model envelope for the correspondence: <= 10 rules of a kind per session, modifications without Remove IEs, Build* functions of the translator do not fail, UP4 stays connected",
     ]
-    ck.rule = ("13 scenarios (the 9 of DESIGN.md + Update PDR, shared-then-deleted, two tiny-pool migration probes), each run fault-free, then once per "
+    ck.rule = ("13 scenarios (the 9 of DESIGN.md + Update PDR, shared-then-deleted, two tiny-pool migration probes) and one corpus scenario per recorded finding, each run fault-free, then once per "
                "(establishment/modification/deletion step, k <= W Writes of that step, 4 answer kinds: gRPC UNAVAILABLE, p4.Error RESOURCE_EXHAUSTED, "
                "p4.Error ALREADY_EXISTS, gRPC UNKNOWN without details) + a retried establishment after every failing position, each followed by two further "
                "sessions; then random histories with 1-2 faults per step; non-trivial = at least one Write of the case failed; distinct = distinct "
@@ -283,7 +300,7 @@ def run(tier, seed, replay=None):
                     raise HarnessError(f"fault-free scenario {c['name']} did not run: {str(o)[:500]}")
             sweep = sweep_cases(bases, bobs, tier)
             rnd = random_cases(rng, 150 if tier == "quick" else 2500)
-            more = sweep + retry_cases(bases, bobs) + rnd
+            more = corpus_cases() + sweep + retry_cases(bases, bobs) + rnd
             cases = bases + more
             obs = bobs + run_cases(binary, more, tag="c15_sweep")
     except HarnessError as e:
@@ -314,7 +331,7 @@ def run(tier, seed, replay=None):
         kept.append((c, o))
     ck.distribution = dict(sorted(dist.items()))
     ck.notes["identifiers_stranded_by_rejected_requests"] = leaks
-    ck.notes["cases"] = {k: sum(1 for c in cases if c.get("cls") == k) for k in ("fault-free", "sweep", "retry", "random")}
+    ck.notes["cases"] = {k: sum(1 for c in cases if c.get("cls") == k) for k in ("fault-free", "corpus", "sweep", "retry", "random")}
     ck.samples = [{"name": c["name"], "faults": [s["faults"] for s in c["steps"] if s["faults"]],
                    "causes": [so["replies"][0].get("cause") if so["replies"] else None for so in o["steps"]]} for c, o in kept[-4:]]
 
